@@ -99,6 +99,83 @@ func genDesc(r *core.RNG) string {
 	return genText(r, 1, 12)
 }
 
+// modelResidues says, without asking gts, which residues a source record
+// holds after its edits: the generator's own letters (or, for a corpus file,
+// the letters of its ORIGIN block picked out by hand) taken through a model
+// of the edits on a plain byte string. ok is false where the model has no
+// opinion (complement and rotate; a corpus file without ORIGIN); the record's
+// own Bytes() are then all there is to compare with.
+func modelResidues(s recSource) (res []byte, ok bool) {
+	if s.Gen != nil {
+		res = s.Gen.residues()
+	} else {
+		text := corpus.Get(s.Corpus)
+		i := bytes.Index(text, []byte("\nORIGIN"))
+		if i < 0 {
+			return nil, false
+		}
+		body := text[i+1:]
+		if j := bytes.IndexByte(body, '\n'); j >= 0 {
+			body = body[j+1:]
+		}
+		if j := bytes.Index(body, []byte("\n//")); j >= 0 {
+			body = body[:j]
+		}
+		for _, c := range body {
+			if c >= 'a' && c <= 'z' || c >= 'A' && c <= 'Z' {
+				res = append(res, c)
+			}
+		}
+	}
+	for _, op := range s.Ops {
+		n := len(res)
+		clamp := func(i int) int {
+			if n == 0 {
+				return 0
+			}
+			if i < 0 {
+				i = -i
+			}
+			return i % (n + 1)
+		}
+		guest := []byte("ttgacagct")
+		for len(guest) < op.G {
+			guest = append(guest, "ttgacagct"...)
+		}
+		switch op.Op {
+		case "clear":
+		case "reverse":
+			rev := make([]byte, n)
+			for i, c := range res {
+				rev[n-1-i] = c
+			}
+			res = rev
+		case "delete", "erase":
+			i := clamp(op.I)
+			k := op.N
+			if i+k > n {
+				k = n - i
+			}
+			res = append(append([]byte(nil), res[:i]...), res[i+k:]...)
+		case "slice":
+			i := clamp(op.I)
+			j := i + op.N
+			if j > n {
+				j = n
+			}
+			res = append([]byte(nil), res[i:j]...)
+		case "insert", "embed":
+			i := clamp(op.I)
+			res = append(append(append([]byte(nil), res[:i]...), guest...), res[i:]...)
+		case "concat":
+			res = append(append([]byte(nil), res...), res...)
+		default:
+			return nil, false
+		}
+	}
+	return res, true
+}
+
 func genC17(r *core.RNG, tier string) *c17Scenario {
 	sc := &c17Scenario{CRLF: r.Chance(1, 4), Chunks: genChunks(r), AltChunks: genChunks(r)}
 	if r.Chance(1, 6) {
@@ -337,10 +414,18 @@ func (x *c17Run) exec() {
 			}
 			desc = strings.ReplaceAll(desc, "\n", " ")
 			x.key("conversion|" + region + "|" + srcKind(s))
-			if msg := checkLayout(out, desc, gts.Len(seq)); msg != "" {
+			// the residues the FASTA record must hold: what the record is made
+			// of, not what gts says it holds
+			expect, modelled := modelResidues(s)
+			if !modelled {
+				expect = append([]byte(nil), seq.Bytes()...)
+			} else {
+				res.Probes["conversions_judged_by_residues_known_without_gts"]++
+			}
+			if msg := checkLayout(out, desc, len(expect)); msg != "" {
 				x.violate("conversion", "layout-or-description", fmt.Sprintf("record %d (%s): %s; first line %q, expected %q", i, srcKind(s), msg, firstLine(string(out)), ">"+desc))
 			}
-			wants = append(wants, want{desc, append([]byte(nil), seq.Bytes()...)})
+			wants = append(wants, want{desc, expect})
 			stream = append(stream, out...)
 			bounds, pieces = append(bounds, len(stream)), append(pieces, out)
 			res.Probes["genbank_to_fasta_conversions"]++
